@@ -1546,9 +1546,51 @@ class Machine:
                     vals[fname] = self.eval(dflt, self.modenv(c.module))
                 self.setattr(o, fname, vals[fname], node)
             return o
+        nt = self.typed_namedtuple(cls)
+        if nt is not None:
+            # class X(typing.NamedTuple) with annotated fields: the generated constructor builds an (immutable) record
+            rt, dflts = nt
+            vals = list(args) + [MISSING] * (len(rt.fields) - len(args))
+            if len(args) > len(rt.fields):
+                raise PathEnd(f"too many arguments for {cls.name}()")
+            for k, v in kwargs.items():
+                if k not in rt.fields or vals[rt.fields.index(k)] is not MISSING:
+                    raise PathEnd(f"bad keyword {k} for {cls.name}()")
+                vals[rt.fields.index(k)] = v
+            for i, v in enumerate(vals):
+                if v is MISSING:
+                    if dflts[i] is None:
+                        raise PathEnd(f"missing field {rt.fields[i]} of {cls.name}()")
+                    vals[i] = self.eval(dflts[i], self.modenv(cls.module))
+            return Record(rt.name, rt.fields, vals)
         if args or kwargs:
             raise PathEnd(f"{cls.name}() takes no arguments")
         return o
+
+    def typed_namedtuple(self, cls):
+        """(RecordType, default expressions) when the class is a plain `class X(typing.NamedTuple)` -- annotated fields and docstring only;
+        a NamedTuple class with methods / properties / other statements is not modelled (Unsupported: the analysis stays incomplete)"""
+        bases = getattr(cls.node, "bases", [])
+        if len(bases) != 1 or getattr(cls.node, "keywords", None) or getattr(cls.node, "decorator_list", None):
+            return None
+        try:
+            b = self.eval(bases[0], self.modenv(cls.module))
+        except Unsupported:
+            return None
+        if not (isinstance(b, ExtRef) and b.name in ("typing.NamedTuple", "typing_extensions.NamedTuple")):
+            return None
+        fields, dflts = [], []
+        for stn in cls.node.body:
+            if isinstance(stn, ast.Expr) and isinstance(stn.value, ast.Constant) and isinstance(stn.value.value, str):
+                continue
+            if isinstance(stn, ast.Pass):
+                continue
+            if isinstance(stn, ast.AnnAssign) and isinstance(stn.target, ast.Name) and stn.target.id not in fields:
+                fields.append(stn.target.id)
+                dflts.append(stn.value)
+                continue
+            raise Unsupported(f"typing.NamedTuple class {cls.name} with a body beyond annotated fields")
+        return RecordType(cls.name, tuple(fields), sum(1 for d in dflts if d is not None)), dflts
 
     # ---- external functions
     def call_ext(self, name, args, kwargs, node, env):
